@@ -31,6 +31,22 @@ extern crate alloc;
 #[cfg(feature = "with-alloc")]
 pub mod deflate;
 pub mod inflate;
+
+/// Verification hook: the inner calls made by the one-shot vector helpers
+/// (`decompress_to_vec*`: kind 1, `compress_to_vec*`: kind 2), per thread:
+/// `[kind, input_len, buffer_len, out_pos, status, consumed, written]`.
+#[cfg(all(miniz_oxide_verif, feature = "std"))]
+pub mod verif_vec_trace {
+    std::thread_local! {
+        static TRACE: core::cell::RefCell<std::vec::Vec<[i64; 7]>> = const { core::cell::RefCell::new(std::vec::Vec::new()) };
+    }
+    pub fn push(ev: [i64; 7]) {
+        TRACE.with(|t| t.borrow_mut().push(ev));
+    }
+    pub fn take() -> std::vec::Vec<[i64; 7]> {
+        TRACE.with(|t| core::mem::take(&mut *t.borrow_mut()))
+    }
+}
 #[cfg(feature = "serde")]
 pub mod serde;
 mod shared;
